@@ -261,6 +261,10 @@ class LoopTranslator:
                 if v is None or not v.lens:
                     raise TranslateError(f"{self.fname}: len() of {ast.unparse(e.args[0])}")
                 return v.lens[0], "Int"
+            if isinstance(f, ast.Name) and f.id in cx.env and cx.env[f.id].ty == "Red2" and len(e.args) == 2 and not e.keywords:
+                a, at = self.expr(cx, e.args[0])
+                b, bt = self.expr(cx, e.args[1])
+                return f"({cx.env[f.id].lean} {self.coerce(a, at, 'Val')} {self.coerce(b, bt, 'Val')})", "Val"
             if isinstance(f, ast.Name) and f.id in cx.env and cx.env[f.id].ty == "Red":
                 args = list(e.args)
                 kws = {k.arg: k.value for k in e.keywords}
@@ -490,10 +494,35 @@ class LoopTranslator:
                 return f"((rangeI {v.lens[0]}).map {v.lean})", "L" + v.ty[1:]
         return None
 
-    def stmts(self, cx: Ctx, body: list[ast.stmt], in_loop: Optional[dict]) -> Optional[str]:
+    @staticmethod
+    def may_escape(body: list[ast.stmt]) -> bool:
+        """does the statement list contain a return / raise, or a continue that belongs to the enclosing loop"""
+        def walk(n, in_inner_loop):
+            if isinstance(n, (ast.Return, ast.Raise)):
+                return True
+            if isinstance(n, ast.Continue):
+                return not in_inner_loop
+            if isinstance(n, (ast.For, ast.While)):
+                return False      # a loop handles its own raise / return / continue (error and done flags)
+            if isinstance(n, ast.If):
+                return any(walk(c, in_inner_loop) for c in n.body + n.orelse)
+            return False
+        return any(walk(n, False) for n in body)
+
+    def run(self, cx: Ctx, body: list[ast.stmt], in_loop: Optional[dict], conts: list) -> str:
+        """translate `body`, then the pending continuations; always yields the value of the enclosing step / function"""
+        esc = self.stmts(cx, body, in_loop, conts)
+        if esc is not None:
+            return esc
+        if conts:
+            return self.run(cx, conts[0], in_loop, conts[1:])
+        return self.fallthrough(cx, in_loop)
+
+    def stmts(self, cx: Ctx, body: list[ast.stmt], in_loop: Optional[dict], conts: Optional[list] = None) -> Optional[str]:
         """translate a statement list into `cx.lets`; returns an *escape expression* (Lean text of the value of
         the enclosing step / function) if the list ends the current iteration / function on every path that reaches
         its end, else None"""
+        conts = conts or []
         for k, s in enumerate(body):
             rest = body[k + 1:]
             if isinstance(s, ast.Expr) and isinstance(s.value, ast.Constant) and isinstance(s.value.value, str):
@@ -504,6 +533,12 @@ class LoopTranslator:
                 if len(s.targets) != 1:
                     raise TranslateError(f"{self.fname}: chained assignment")
                 tgt = s.targets[0]
+                if isinstance(tgt, ast.Tuple) and isinstance(s.value, ast.Tuple) and len(tgt.elts) == len(s.value.elts) \
+                        and all(isinstance(t, ast.Name) for t in tgt.elts):
+                    vals = [self.expr(cx, v) for v in s.value.elts]      # right-hand sides first
+                    for t, (v, ty) in zip(tgt.elts, vals):
+                        self.assign_name(cx, t.id, v, ty)
+                    continue
                 if isinstance(tgt, ast.Tuple):
                     if len(tgt.elts) != 2:
                         raise TranslateError(f"{self.fname}: tuple assignment of length {len(tgt.elts)}")
@@ -584,7 +619,7 @@ class LoopTranslator:
             if isinstance(s, ast.Return):
                 return self.escape(cx, in_loop, "return", s.value)
             if isinstance(s, ast.If):
-                kind, res = self.if_stmt(cx, s, rest, in_loop)
+                kind, res = self.if_stmt(cx, s, rest, in_loop, conts)
                 if kind != "none":
                     return res
                 continue
@@ -633,6 +668,15 @@ class LoopTranslator:
             raise TranslateError(f"{self.fname}: bare return")
         elts = value.elts if isinstance(value, ast.Tuple) else [value]
         parts, tys = [], []
+        declared = getattr(self, "declared_ret", None)
+        if declared is not None:
+            if len(declared) != len(elts):
+                raise TranslateError(f"{self.fname}: return arity differs from the declaration")
+            for e, want in zip(elts, declared):
+                s_, t_ = self.expr(cx, e)
+                parts.append(self.coerce(s_, t_, want))
+                tys.append(lean_ty(want))
+            return "(" + ", ".join(parts) + ")" if len(parts) > 1 else parts[0], " × ".join(tys)
         for e in elts:
             # labels[:n] style returns: (array, length)
             if isinstance(e, ast.Subscript) and isinstance(e.slice, ast.Slice) and isinstance(e.value, ast.Name) \
@@ -662,36 +706,30 @@ class LoopTranslator:
         return "⟨" + ", ".join(fields) + "⟩"
 
     # .................................................................. if
-    def if_stmt(self, cx: Ctx, s: ast.If, rest: list[ast.stmt], in_loop):
-        """returns ("none", None) | ("escape", expr) | ("consumed", expr: the rest of the list is inside)"""
+    def if_stmt(self, cx: Ctx, s: ast.If, rest: list[ast.stmt], in_loop, conts: list):
+        """returns ("none", None) | ("consumed", expr: everything that follows is inside the expression)"""
         c = self.cond(cx, s.test)
         cn = cx.fresh("c")
         cx.lets.append(f"let {cn} : Bool := {c}")
         ca = cx.fork()
         ca.lets = []
-        esc_a = self.stmts(ca, s.body, in_loop)
         cb = cx.fork()
         cb.lets = []
-        esc_b = self.stmts(cb, s.orelse, in_loop) if s.orelse else None
-        cx.has_err = cx.has_err or ca.has_err or cb.has_err
 
         def block(lets, tail):
             return "(" + "".join(l + "; " for l in lets) + tail + ")"
 
-        if esc_a is not None and esc_b is not None:
-            return "escape", f"(if {cn} then {block(ca.lets, esc_a)} else {block(cb.lets, esc_b)})"
+        if self.may_escape(s.body) or self.may_escape(s.orelse):
+            # a branch may end the iteration / function: both branches carry everything that follows
+            a = self.run(ca, s.body, in_loop, [rest] + conts)
+            b = self.run(cb, s.orelse, in_loop, [rest] + conts)
+            cx.has_err = cx.has_err or ca.has_err or cb.has_err
+            return "consumed", f"(if {cn} then {block(ca.lets, a)} else {block(cb.lets, b)})"
+        esc_a = self.stmts(ca, s.body, in_loop)
+        esc_b = self.stmts(cb, s.orelse, in_loop) if s.orelse else None
+        cx.has_err = cx.has_err or ca.has_err or cb.has_err
         if esc_a is not None or esc_b is not None:
-            # one branch escapes: the other continues with the rest of the list
-            cont_cx = cb if esc_a is not None else ca
-            tail = self.stmts(cont_cx, rest, in_loop)
-            if tail is None:
-                tail = self.fallthrough(cont_cx, in_loop)
-            cx.has_err = cx.has_err or cont_cx.has_err
-            if esc_a is not None:
-                res = f"(if {cn} then {block(ca.lets, esc_a)} else {block(cont_cx.lets, tail)})"
-            else:
-                res = f"(if {cn} then {block(cont_cx.lets, tail)} else {block(cb.lets, esc_b)})"
-            return "consumed", res
+            raise TranslateError(f"{self.fname}: internal: unexpected escape")
         # no escape: per-variable conditional
         changed = []
         for py in list(dict.fromkeys(list(ca.env) + list(cb.env))):
@@ -1029,10 +1067,44 @@ open GV
 
 
 def find_func(tree: ast.AST, name: str) -> ast.FunctionDef:
+    if "/" in name:
+        outer, inner = name.split("/", 1)
+        inner, _, idx = inner.partition("#")
+        o = find_func(tree, outer)
+        cands = [n for n in ast.walk(o) if isinstance(n, ast.FunctionDef) and n.name == inner and n is not o]
+        k = int(idx or 0)
+        if k >= len(cands):
+            raise TranslateError(f"function {name} not found")
+        return cands[k]
     for n in ast.walk(tree):
         if isinstance(n, ast.FunctionDef) and n.name == name:
             return n
     raise TranslateError(f"function {name} not found")
+
+
+def first_non_null_dispatch(tree: ast.AST) -> str:
+    """`@overload(_get_first_non_null)`: the isinstance chain on the array dtype becomes a match on the kind; the shape of
+    the chain is checked (Float -> the python function, Integer -> the first nested `f`, Boolean -> not translated)"""
+    fn = find_func(tree, "jit_get_first_non_null")
+    chain = [n for n in fn.body if isinstance(n, ast.If)]
+    if len(chain) != 1:
+        raise TranslateError("jit_get_first_non_null: expected one if-chain")
+    tests, node = [], chain[0]
+    while True:
+        tests.append((ast.unparse(node.test), ast.unparse(node.body[-1])))
+        if len(node.orelse) == 1 and isinstance(node.orelse[0], ast.If):
+            node = node.orelse[0]
+        else:
+            break
+    want = [("isinstance(arr.dtype, nb.types.Float)", "return _get_first_non_null"),
+            ("isinstance(arr.dtype, nb.types.Integer)", "return f"),
+            ("isinstance(arr.dtype, nb.types.Boolean)", "return f")]
+    if tests != want:
+        raise TranslateError(f"jit_get_first_non_null: dispatch chain changed: {tests}")
+    return ("/-- `@overload(_get_first_non_null)`: dispatch on the array dtype (booleans: not translated, flagged) -/\n"
+            "def get_first_non_null (k : Kind) (arr_len : Int) (arr : Int → Val) : (Int × Val) × Bool :=\n"
+            "  match k with\n  | .f => first_non_null_float k arr_len arr\n  | .b => ((0, arr 0), true)\n"
+            "  | _ => first_non_null_int k arr_len arr\n\n")
 
 
 # functions already translated in this run: python name -> (lean name, parameter types, result types)
@@ -1070,6 +1142,10 @@ LOOPS = {
     "ema_grouped_timed": ("emas", "_ema_grouped_timed",
                           {"group_key": "A(Int)", "values": "A(F)", "times": "A(Int)", "halflife": "Int", "ngroups": "Int",
                            "mask": "OptA(Bool)"}, "F"),
+    "first_non_null_float": ("util", "_get_first_non_null", {"arr": "A(Val)"}, "Val", ["Int", "Val"]),
+    "first_non_null_int": ("util", "jit_get_first_non_null/f#0", {"arr": "A(Val)"}, "Val", ["Int", "Val"]),
+    "nb_reduce": ("nanops", "_nb_reduce", {"reduce_func": "Red2", "arr": "A(Val)", "skipna": "Bool", "initial_value": "OptVal"}, "Val",
+                  ["Val"]),
     "build_group_sorted_indexer": ("core", "_build_group_sorted_indexer_numba",
                                    {"group_key_list": "LL(Int)", "group_counts": "A(Int)", "key_map": "OptA(Int)",
                                     "mask": "OptA(Bool)"}),
@@ -1104,9 +1180,14 @@ def generate_loops(trees: dict[str, ast.AST], only=None) -> tuple[str, dict[str,
         try:
             fn = find_func(trees[mod], pyname)
             tr = LoopTranslator(lean_name, params, float_ty, module_int_constants(trees[mod]))
+            if len(spec) > 4:
+                tr.declared_ret = spec[4]
             out.append(f"/-! ### `{pyname}` -/\n\n" + tr.function(fn, lean_name) + "\n")
             if len(spec) > 4:
                 TRANSLATED[pyname] = (lean_name, [t for t in params.values()], spec[4])
+            if lean_name == "first_non_null_int":
+                out.append(first_non_null_dispatch(trees[mod]))
+                TRANSLATED["_get_first_non_null"] = ("get_first_non_null", ["A(Val)"], ["Int", "Val"])
         except TranslateError as e:
             errors[lean_name] = str(e)
             out.append(f"-- TRANSLATE-ERROR {lean_name}: {e}\n\n")
@@ -1124,6 +1205,7 @@ if __name__ == "__main__":
         "emas": ast.parse((repo / "groupby_lib/emas.py").read_text()),
         "fact": ast.parse((repo / "groupby_lib/groupby/factorization.py").read_text()),
         "nanops": ast.parse((repo / "groupby_lib/nanops.py").read_text()),
+        "util": ast.parse((repo / "groupby_lib/util.py").read_text()),
     }
     txt, errs = generate_loops(trees)
     print(txt)
